@@ -145,7 +145,9 @@ Accept(o, g) ==
 D(n, k, a, f, p, fi, dl, c) ==
   [fd |-> n, kind |-> k, acc |-> a, fl |-> f, pos |-> p, file |-> fi, del |-> dl, close |-> c]
 
-JunkKinds == {"blank", "spaces", "nocolon", "nospace"}   \* b"", b"  \t", b"garbage", b"key:5"
+\* b"", b"  \t", b"garbage", b"key:5", and malformed lines that contain fragments looking like a
+\* record: b"(cgroup) read_bytes: 0 write_bytes: 0", b"# rchar: 0", b"prev/syscw: 9"
+JunkKinds == {"blank", "spaces", "nocolon", "nospace", "twopairs", "hashname", "slashname"}
 IoNames == <<"rchar", "wchar", "syscr", "syscw", "read_bytes", "write_bytes", "cancelled_write_bytes">>
 K7 == [j \in 1..7 |-> [t |-> "kv", k |-> IoNames[j], v |-> 100 + j]]
 K6 == SubSeq(K7, 1, 6)
